@@ -168,6 +168,7 @@ def c02(tier, seed):
         "functions_under_contract": LAYOUT_FNS + [
             "bindgen/codegen/helpers.rs: ast_ty::int_kind_rust_type, ast_ty::float_kind_rust_type (unit prim_types: fixed-width kinds get a Rust integer of the same width and sign; platform kinds the std::os::raw alias documented as equivalent; wchar_t / long double / __float128 a type of exactly the C size)",
             "bindgen/codegen/mod.rs: the `packed` representation-hint decision of CompInfo::codegen (unit repr, statement extracted by rule R18: packed(N) exactly for packed, non-opaque records whose packed is not redundant next to an explicit align)",
+            "bindgen/codegen/mod.rs: the tail of CompInfo::codegen that completes size and alignment (unit layout, statements extracted by rule R18 and verified against the contracts of pad_struct / requires_explicit_align / blob): an opaque record is one blob of exactly the C size/alignment with repr(align); a struct gets the padding of the size theorem appended in place and repr(align(N)) (packed for N == 1) whenever its fields under-align; a non-Rust union is one blob of exactly the C size/alignment; and the realisation of the explicit alignment (repr(align(N)), or a leading zero-length array of a primitive whose alignment is exactly N for bit-field records with N <= 8)",
             "bindgen/ir/comp.rs: CompInfo::already_packed (unit packed: Some(true) exactly when dropping `packed` moves no field), CompInfo::is_packed (attribute, or a member more aligned than the record, or a vtable in a 1-aligned record)"],
         "assumptions": [
             "placement theorem (saw_field_with_layout post#4) region: not packed, not a union, clang reported the field offset (multiple of 8 bits, >= running offset, multiple of the field alignment), the Rust struct built so far ends at the tracker's running offset and that is a multiple of the previous field's alignment; the Rust type of the field has the alignment clang reports",
@@ -175,10 +176,10 @@ def c02(tier, seed):
             "libclang's numbers (Type::layout, field offsets) are the C compiler's",
         ],
         "unverified": [
-            "CompInfo::codegen: the order of saw_* calls, repr/packed attribute selection (CompInfo::is_packed, already_packed), that returned padding tokens are emitted in place",
+            "CompInfo::codegen: the order of saw_* calls in the field loop and that the padding tokens returned there are emitted in place (the tail after the loop IS under contract)",
             "StructLayoutTracker::saw_field (array 'ultra hack', needs live IR), ::new",
             "packed structs, unions and fields after a bit-field unit are covered by invariant + safety only",
-            "raw_type's prefix/core/std selection (trusted to name the alias), Enum::codegen repr translation, the repr/packed/align attribute assembly inside CompInfo::codegen; C++ tail-padding reuse",
+            "raw_type's prefix/core/std selection (trusted to name the alias), Enum::codegen repr translation; the zero-sized/_address statement of CompInfo::codegen; C++ tail-padding reuse",
         ]})
 
 
